@@ -427,6 +427,18 @@ class HTTP1Connection(httputil.HTTPConnection):
                 # No need to chunk the output if a Content-Length is specified.
                 and "Content-Length" not in headers
             )
+            # A response body that is delimited neither by Content-Length
+            # nor by chunked encoding (i.e. a streamed response to an
+            # HTTP/1.0 client) ends when the connection is closed, so the
+            # connection cannot be kept alive.
+            if (
+                not self._chunking_output
+                and "Content-Length" not in headers
+                and self._request_start_line.method != "HEAD"
+                and start_line.code not in (204, 304)
+                and (start_line.code < 100 or start_line.code >= 200)
+            ):
+                self._disconnect_on_finish = True
             # If connection to a 1.1 client will be closed, inform client
             if (
                 self._request_start_line.version == "HTTP/1.1"
